@@ -339,7 +339,10 @@ func (p *Plugin) maintenance(workerData *pipeline.WorkerData) {
 
 	p.logger.Infof("reconnecting worker...")
 	data := (*workerData).(*data)
-	_ = data.gelf.close()
+	// there is no client after a failed connect or send (out drops it) and after the previous maintenance
+	if data.gelf != nil {
+		_ = data.gelf.close()
+	}
 	data.gelf = nil
 }
 
